@@ -389,6 +389,7 @@ where
 
     // unsigned_abs: i32::MIN has no positive counterpart in i32
     for _i in 1..exponent.unsigned_abs() {
+        verif_tick!();
         r = if let Some(r) = r.checked_mul(operand) {
             r
         } else {
